@@ -23,6 +23,7 @@ from easynetwork.lowlevel import constants
 from easynetwork.lowlevel.api_sync.endpoints.stream import StreamEndpoint
 from easynetwork.lowlevel.api_sync.transports.socket import SocketStreamTransport
 from easynetwork.protocol import BufferedStreamProtocol, StreamProtocol
+from easynetwork.serializers.abc import BufferedIncrementalPacketSerializer
 
 from sx.engine import Outcome
 
@@ -208,6 +209,70 @@ def recv_budget(frame: int, T: int, interval, path: str, bufsize: int = 2, max_e
         ok, elapsed, tags = _verdict(env, T, outcome, 0, extra_ok=extra)
         if hidden and complete and interval != INF and (T == INF or T > interval * max_eagain) and outcome != "returned":
             ok = False  # every would-block costs at most one retry interval: the packet must have been delivered
+        return Outcome(ok=ok, skeleton=(outcome, elapsed), tags=tags, detail={"outcome": outcome, "elapsed": elapsed, "T": T, "selects": env.selects, "complete": complete})
+
+    return scenario
+
+
+class ScratchLine(BufferedIncrementalPacketSerializer):
+    """LF-framed packets; the buffered variant treats its buffer as scratch space that is refilled from offset 0 on every read (what the
+    compressor wrappers and the file-based serializers do): a read that fills the whole buffer is the normal case here."""
+
+    __slots__ = ()
+
+    def serialize(self, packet):
+        return bytes(packet)
+
+    def deserialize(self, data):
+        return bytes(data)
+
+    def incremental_serialize(self, packet):
+        yield bytes(packet) + b"\n"
+
+    def incremental_deserialize(self):
+        acc = b""
+        while True:
+            acc = acc + (yield)
+            i = acc.find(b"\n")
+            if i >= 0:
+                return acc[:i], acc[i + 1 :]
+
+    def create_deserializer_buffer(self, sizehint):
+        return bytearray(sizehint)
+
+    def buffered_incremental_deserialize(self, buffer):
+        acc = b""
+        while True:
+            n = yield 0
+            acc = acc + bytes(memoryview(buffer)[:n])
+            i = acc.find(b"\n")
+            if i >= 0:
+                return acc[:i], acc[i + 1 :]
+
+
+def recv_budget_scratch(frame: int, T: int, interval, bufsize: int = 1, max_eagain: int = 2):
+    """recv_budget on the buffer-filling path with a serializer whose receive buffer is scratch space refilled from offset 0
+    (ScratchLine) and as small as the reads: every read fills the whole buffer.  Same oracle: the call ends within T."""
+
+    def scenario(S):
+        payload = S.bytes(frame, "p")
+        S.assume(payload.find(b"\n") < 0)
+        complete = S.bool("complete")
+        incoming = payload + b"\n" if complete else payload
+        env = Env(S, fuel=3 * (frame + 1 + max_eagain) + 8, max_eagain=max_eagain, cap=bufsize, elapsed_max=T + 1)
+        sock = FakeSocket(env, incoming=incoming, eof_after=False)
+        try:
+            tr = SocketStreamTransport(sock, interval, selector_factory=lambda: StubSelector(env))
+            ep = StreamEndpoint(tr, BufferedStreamProtocol(ScratchLine()), max_recv_size=bufsize)
+            got = []
+            with patched_clock(env):
+                outcome = _run(lambda: got.append(ep.recv_packet(timeout=T)))
+        finally:
+            sock.really_close()
+        extra = True
+        if outcome == "returned":
+            extra = complete and got[0] == payload
+        ok, elapsed, tags = _verdict(env, T, outcome, 0, extra_ok=extra)
         return Outcome(ok=ok, skeleton=(outcome, elapsed), tags=tags, detail={"outcome": outcome, "elapsed": elapsed, "T": T, "selects": env.selects, "complete": complete})
 
     return scenario
@@ -503,6 +568,8 @@ def shards(tier: str):
             for path in ("copy", "buf"):
                 for frame in (1, 2) if quick else (1, 2, 3):
                     add(f"recv/{path}/F{frame}/T{T}/i{ivn}", "recv_budget", dict(frame=frame, T=T, interval=iv, path=path, bufsize=1 if frame == 1 else 2, max_eagain=2), cost=10 * (T + 1) ** 2 * frame)
+            if T != 0:
+                add(f"recv-scratch/F2/T{T}/i{ivn}", "recv_budget_scratch", dict(frame=2, T=T, interval=iv, bufsize=1, max_eagain=2), cost=10 * (T + 1) ** 2 * 2)
             if iv != INF and T != 0:
                 add(f"recv-hidden/copy/F1/T{T}/i{ivn}", "recv_budget", dict(frame=1, T=T, interval=iv, path="copy", bufsize=2, max_eagain=1, hidden=True), cost=10)
             add(f"recv-eof/copy/F1/T{T}/i{ivn}", "recv_budget", dict(frame=1, T=T, interval=iv, path="copy", bufsize=2, max_eagain=1, eof=True), cost=10)
